@@ -117,6 +117,20 @@ func genC15(seed uint64, run int, tier string) Scenario {
 		sc.GapsUS = append(sc.GapsUS, int64(r.IntN(int(sc.TimeoutSocketUS/8)+1)))
 		rest -= l
 	}
+	if r.IntN(10) == 0 && len(open) > 10 {
+		// a server that drips its opening byte by byte, each byte well inside the negotiation window
+		// of the one before, for longer than the socket timeout in total
+		sc.SegLens, sc.GapsUS = nil, nil
+		for rest := len(open); rest > 0; {
+			l := 1 + r.IntN(2)
+			if l > rest {
+				l = rest
+			}
+			sc.SegLens = append(sc.SegLens, l)
+			sc.GapsUS = append(sc.GapsUS, sc.TimeoutSocketUS/8)
+			rest -= l
+		}
+	}
 	sc.Tail = pick(r, "", "Password: ", "tail-data\r\n")
 	if r.IntN(6) == 0 {
 		sc.Prior = pick(r, []byte{tIAC}, []byte{tIAC, tDO}, []byte{tIAC, tWILL}, []byte("ab\xff"), []byte{tIAC, tDO, 1, tIAC, tDONT})
@@ -245,7 +259,11 @@ func runC15(env *Env, s Scenario) {
 			}
 		}
 	})
-	out := k.Run(done, 10*tsock+time.Second, time.Millisecond)
+	var gaps time.Duration
+	for _, g := range sc.GapsUS {
+		gaps += time.Duration(g) * time.Microsecond
+	}
+	out := k.Run(done, gaps+10*tsock+time.Second, time.Millisecond)
 	env.Finish(out)
 	env.Res.Shape = fmt.Sprintf("%s items=%d segs=%d tsock=%d rs=%d", sc.Class, len(sc.Items), len(sc.SegLens), sc.TimeoutSocketUS, sc.ReadSize)
 	env.Res.Nontrivial = true
